@@ -226,6 +226,9 @@ def run(ctx):
     dp, decp, fp = pt.params[1], pt.params[2], pt.params[3]
     tdom = {"d": [(0, 255)], "tenths": [(0, 9)]}
     T_FORM = LinV({"d": Fraction(1, 2)}, -25)
+    import math
+    from ..bits import Region as _Region
+    _Region.DERIVED = {"trunc": ("d", lambda d: math.trunc(Fraction(d, 2) - 25))}
 
     def tleaf(tm, be):
         if tm == ("param", dp):
